@@ -136,8 +136,16 @@ func (multiSource *MultiSource) ReadEntities(ctx context.Context, since DatasetC
 	}
 
 	if !multiSource.isFullSync {
-		for _, dep := range multiSource.Dependencies {
-			err := multiSource.processDependency(ctx, dep, d, batchSize, processEntities)
+		// several dependencies (declared or implicit) can start from the same dataset. They share one token:
+		// all of them have to work from the token the dataset had when this read started, and the token may only
+		// move once the last of them has been processed.
+		lastOfDataset := map[string]int{}
+		for i, dep := range multiSource.Dependencies {
+			lastOfDataset[dep.Dataset] = i
+		}
+		startTokens := map[string]*StringDatasetContinuation{}
+		for i, dep := range multiSource.Dependencies {
+			err := multiSource.processDependency(ctx, dep, d, batchSize, processEntities, startTokens, lastOfDataset[dep.Dataset] == i)
 			if err != nil {
 				return err
 			}
@@ -162,7 +170,9 @@ func (multiSource *MultiSource) resetChangesCache() {
 	multiSource.changesCache = make(map[string]changeURIData)
 }
 
-func (multiSource *MultiSource) processDependency(ctx context.Context, dep Dependency, d *MultiDatasetContinuation, batchSize int, processEntities func([]*server.Entity, DatasetContinuation) error) error {
+func (multiSource *MultiSource) processDependency(ctx context.Context, dep Dependency, d *MultiDatasetContinuation, batchSize int, processEntities func([]*server.Entity, DatasetContinuation) error,
+	startTokens map[string]*StringDatasetContinuation, advanceToken bool,
+) error {
 	depDataset, err2 := multiSource.getDatasetFor(dep)
 	targetDs := multiSource.Store.DatasetsToInternalIDs([]string{multiSource.DatasetName})
 	if err2 != nil {
@@ -174,10 +184,14 @@ func (multiSource *MultiSource) processDependency(ctx context.Context, dep Depen
 		d.DependencyTokens = make(map[string]*StringDatasetContinuation)
 	}
 
-	depSince := d.DependencyTokens[d.activeDS]
+	depSince := startTokens[d.activeDS]
 	if depSince == nil {
-		depSince = &StringDatasetContinuation{}
-		d.DependencyTokens[d.activeDS] = depSince
+		depSince = d.DependencyTokens[d.activeDS]
+		if depSince == nil {
+			depSince = &StringDatasetContinuation{}
+			d.DependencyTokens[d.activeDS] = depSince
+		}
+		startTokens[d.activeDS] = depSince
 	}
 
 	// When working through a dependency dataset, we first find all changes since the last run in that dependency
@@ -371,7 +385,9 @@ func (multiSource *MultiSource) processDependency(ctx context.Context, dep Depen
 		}
 	}
 
-	d.DependencyTokens[dep.Dataset] = &StringDatasetContinuation{Token: strconv.Itoa(int(continuation))}
+	if advanceToken {
+		d.DependencyTokens[dep.Dataset] = &StringDatasetContinuation{Token: strconv.Itoa(int(continuation))}
+	}
 	// if there are still unemitted search results, emit them now
 	if len(entities) > 0 {
 		err = processEntities(entities, d)
